@@ -273,10 +273,28 @@ static void check_owner(const char * what) {
 /* ------------------------------------------------------------------ hooks */
 void mythv_worker(int rank) { tl_w = rank; }
 
+/* owner-side run-queue operations (push, pop, put) are unsynchronised against each other: only the queue's own worker may execute them */
+static int owner_side_point(int id) {
+  switch (id) {
+  case mythv_p_q_push_top: case mythv_p_q_push_slot: case mythv_p_q_push_pub:
+  case mythv_p_q_pop_dec: case mythv_p_q_pop_base: case mythv_p_q_pop_slot:
+  case mythv_p_q_put: case mythv_p_q_put_recentre:
+    return 1;
+  default: return 0;
+  }
+}
 void mythv_point(int id, const volatile void * addr, size_t sz) {
-  (void)addr; (void)sz;
+  (void)sz;
   if (!in_control()) return;
   check_owner("point");
+  if (owner_side_point(id)) {
+    extern int mythv_queue_owner(const volatile void * addr, int nworkers);
+    int o = mythv_queue_owner(addr, S.nw);
+    if (o >= 0 && o != tl_w) {
+      char b[200]; snprintf(b, sizeof b, "an owner-side operation (push / pop / put, hook point %d) on the run queue of worker %d is executed by worker %d: the thread uses a worker pointer it read before it moved", id, o, tl_w);
+      finish_verdict(MV_VIOLATION, b);
+    }
+  }
   if (!yield_only_point(id)) S.yl_n[tl_w] = 0;
   S.st[tl_w] = ST_READY;
   decide(tl_w, id);
